@@ -462,6 +462,9 @@ def r_C24(root):
     la, lb = lits(A, "textx_model"), lits(B, "TextxModel")
     for x in sorted(la - lb - {"/"}): out.append(Finding("C24", "C24.b", "textx/textx.tx", "vocabulary", repr(x), "literal of the grammar compiler missing from the self-hosted grammar"))
     for x in sorted(lb - la - {"/"}): out.append(Finding("C24", "C24.b", "textx/lang.py", "vocabulary", repr(x), "literal of the self-hosted grammar missing from the grammar compiler"))
+    # a disagreement about the tokens of the import statement is a defect of grammar imports (C25) too
+    for f in list(out):
+        if "import" in f.func.lower(): out.append(Finding("C25", f.rule, f.file, f.func, f.construct, f.msg, f.witness))
     return len(d.paired), out
 ALL = [r_C24]
 if __name__ == "__main__":
